@@ -123,3 +123,13 @@ package generic
 //@   ensures before-asked: (meth != nil && is(meth, ptr(slip.Method)) && qual == ":before") ==> found(meth).Combinations[0].Before != nil
 //@   ensures after-asked: (meth != nil && is(meth, ptr(slip.Method)) && qual == ":after") ==> found(meth).Combinations[0].After != nil
 //@   ensures around-asked: (meth != nil && is(meth, ptr(slip.Method)) && qual == ":around") ==> found(meth).Combinations[0].Wrap != nil
+
+// C19: in the load form of a generic function every :method form - primary, :before, :after, :around - gets
+// the specialized lambda list built from its own lambda (its own parameter names and defaults, the method's
+// specializers): the qualifiers of one method need not name their parameters alike.
+//@ func generic.(*Aux).LoadForm
+//@   property C19
+//@   on-call LoadForm$1 each-qualifier-with-its-own-lambda: $arg0 == lam
+//@ func generic.(*Aux).LoadForm$1
+//@   property C19
+//@   ensures one-entry-per-parameter-of-its-own-lambda: (lam.Doc != nil && len(lam.Doc.Args) == len(method.Doc.Args)) ==> len(result0) == len(lam.Doc.Args)
